@@ -20,7 +20,7 @@ CLAIMED = {
  ),
  "C02": dict(
    category="other",
-   text="Decides the single-writer / save-before-send / latch structure that makes a second signature in one (height, round) impossible in a process lifetime: one caller per Signer method; sign -> Save*Action(same signature, target (rlc.H, rlc.R, strategy hash)) -> send on the save's nil-error edge, carrying that signature; recording functions called only in the select case of their per-round channel, which is set nil on every continuing path; channels re-armed only by RoundLifecycle.Reset, itself called only for (H+1,0), (H,R+1) or the start-up position; action values sent only by the recorders or the start-up re-send of a stored action; *RoundLifecycle confined to one goroutine.",
+   text="Decides the single-writer / save-before-send / latch structure that makes a second signature in one (height, round) impossible in a process lifetime: one caller per Signer method; sign -> Save*Action(same signature, target (rlc.H, rlc.R, strategy hash)) -> send on the save's nil-error edge, carrying that signature; recording functions called only in the select case of their per-round channel, which is set nil on every continuing path; channels re-armed only by RoundLifecycle.Reset, itself called only for (H+1,0), (H,R+1) or the start-up position; action values sent only by the recorders or the start-up re-send of a stored action; *RoundLifecycle confined to one goroutine. Each round entrance carries an actions channel made for that entrance, so a queued local vote cannot be filed under a later round.",
    design_ref="DESIGN.md §4 C02",
    note="Across restarts the guarantee rests on the action store's refusal (C16.2) and the start-up proposal suppression; a custom Signer/ActionStore that misbehaves is out of scope.",
    technique="who-may-call, dominance and guard edge-dominance on SSA, value-shape identity of signature/target, post-dominance of the latch store, who-may-write",
@@ -34,7 +34,7 @@ CLAIMED = {
  ),
  "C12": dict(
    category="other",
-   text="Timer typestate by abstract interpretation of the state machine SSA: the invariant 'timed step <=> StepTimer and CancelTimer set and a timer armed, of the kind belonging to that step; none while catching up' is inductive over every event case of the live and catch-up loops and round entry; on no abstract path is CancelTimer called while nil or a RoundTimer requested while the previous one is still armed. Structurally: StepTimer/CancelTimer always assigned as a pair; RoundTimer used only by the state machine; in the production timer a start request during the running phase may panic only on the default arm of a non-blocking poll of the cancel channel (cancel-then-start succeeds for every schedule: defect D17, fixed), the elapsed channel is closed only in the timer-fired case, cancel closes once via sync.Once, and once the time.Timer value has been received no path waits on that channel again before the timer is re-armed (a second drain would wedge the goroutine).",
+   text="Timer typestate by abstract interpretation of the state machine SSA: the invariant 'timed step <=> StepTimer and CancelTimer set and a timer armed, of the kind belonging to that step; none while catching up' is inductive over every event case of the live and catch-up loops and round entry; on no abstract path is CancelTimer called while nil or a RoundTimer requested while the previous one is still armed. Structurally: StepTimer/CancelTimer always assigned as a pair; RoundTimer used only by the state machine; in the production timer a start request during the running phase may panic only on the default arm of a non-blocking poll of the cancel channel (cancel-then-start succeeds for every schedule: defect D17, fixed), the elapsed channel is closed only in the timer-fired case, cancel closes once via sync.Once, and once the time.Timer value has been received no path waits on that channel again before the timer is re-armed (a second drain would wedge the goroutine). After every arming the goroutine's next wait includes timer.C.",
    design_ref="DESIGN.md §4 C12, §9.8",
    note="Wall-clock behaviour of time.Timer and promptness are not decided. Paths after a failed send/store are exempt (the kernel is stopping). The Go memory model's guarantee that a closed channel is ready in select is trusted.",
    technique="abstract interpretation over go/ssa with a timer typestate + pairing/who-may-call rules + select-case guard analysis of the timer goroutine",
@@ -55,7 +55,7 @@ CLAIMED = {
  ),
  "C06": dict(
    category="other",
-   text="Decides the shape of the vote summary computation (per-target sum over set bits with index bound; total counted once per validator via first-seen gate; arg-max with min-hash tie-break), recompute-after-mutation on every path in the kernel (flag-sensitive path walk), threshold coherence (power and available power from one summary, block power indexed by the same kind's most-voted hash) and available-power provenance.",
+   text="Decides the shape of the vote summary computation (per-target sum over set bits with index bound; total counted once per validator via first-seen gate; arg-max with min-hash tie-break), recompute-after-mutation on every path in the kernel (flag-sensitive path walk), threshold coherence (power and available power from one summary, block power indexed by the same kind's most-voted hash) and available-power provenance. The seen-set that makes a validator count once only grows during the summation; a threshold operand is one summary quantity, never a sum of several.",
    design_ref="DESIGN.md §4 C06",
    note="Numeric equality for all inputs and uint64 overflow are not decided.",
    technique="loop-structure and guard analysis on SSA, flag-sensitive all-paths post-dominance, value-shape coherence of comparison operands",
@@ -90,7 +90,7 @@ CLAIMED = {
  ),
  "C13": dict(
    category="other",
-   text="Decides the code-shape conditions the merge laws rest on, for both shipped schemes: verify-before-set at every signature/bit write (and that no other function writes those fields), bounded fixed-width reads of key ids and encoded keys, clone independence field by field, clearing of AllValidSignatures on every rejecting edge, flag tests in the commit-proof finalizer. The algebraic laws themselves (union, idempotence, round trip) quantify over values and are not decided.",
+   text="Decides the code-shape conditions the merge laws rest on, for both shipped schemes: verify-before-set at every signature/bit write (and that no other function writes those fields), bounded fixed-width reads of key ids and encoded keys, clone independence field by field, clearing of AllValidSignatures on every rejecting edge, flag tests in the commit-proof finalizer. The algebraic laws themselves (union, idempotence, round trip) quantify over values and are not decided. AddSignature reports success only behind verification (or equality with the stored signature); decoded indexes are bounded strictly; BLS Finalize and ValidateFinalizedProof order rest proofs by the same two-level comparison.",
    design_ref="DESIGN.md §4 C13",
    note="Not decided: set-union/idempotence/round-trip equalities, BLS aggregation arithmetic, combination index encode/decode. Trusted: ed25519/blst Verify, bitset semantics.",
    technique="guard edge-dominance with pre-bound value shapes, who-may-write, bounded-read (length test dominance), composite-literal field freshness",
@@ -104,21 +104,21 @@ CLAIMED = {
  ),
  "C15": dict(
    category="other",
-   text="Collision resistance trusted. Decided: Block ignores the stored hash and every other header leaf field (incl. each previous-commit signature's key id and bytes) flows into the hashed bytes; no hasher write inside a map loop and collected slices are sorted; a field-sensitive taint analysis shows no block-hash-keyed map is indexed by a formatted/literal key (the defect that dropped commit-proof signatures from the hash, now fixed); format strings have out-of-alphabet delimiters and distinct labels, optional sections nil-guarded; leading lines of proposal/prevote/precommit sign contents (resolved through helper calls with constant arguments) are pairwise disjoint and prefix-free.",
+   text="Collision resistance trusted. Decided: Block ignores the stored hash and every other header leaf field (incl. each previous-commit signature's key id and bytes) flows into the hashed bytes; no hasher write inside a map loop and collected slices are sorted; a field-sensitive taint analysis shows no block-hash-keyed map is indexed by a formatted/literal key (the defect that dropped commit-proof signatures from the hash, now fixed); format strings have out-of-alphabet delimiters and distinct labels, optional sections nil-guarded; leading lines of proposal/prevote/precommit sign contents (resolved through helper calls with constant arguments) are pairwise disjoint and prefix-free. Sort comparators in the hash functions relate the same component of both elements; bytes assembled in a buffer are not interleaved with direct writes to the hasher.",
    design_ref="DESIGN.md §4 C15",
    note="Injectivity over variable-length fields beyond the delimiter check is not decided.",
    technique="data-flow coverage of hash inputs, field-sensitive formatting taint, constant format-string analysis, interprocedural constant substitution for sign-content heads",
  ),
  "C17": dict(
    category="other",
-   text="Decides the structure of the shipped ChattyStrategy: only the three helpers send on the broadcaster channels and only data built from their view parameter; broadcastAll covers all three; diff falls back to a full broadcast unless height and round match; first update broadcast in full; nil-voted-round precommits broadcast on every path with no extra condition (flag-sensitive all-paths); the updates-only predicate does not use the cardinality of a cross-target signer union (defect D19, fixed); previous views replaced after handling.",
+   text="Decides the structure of the shipped ChattyStrategy: only the three helpers send on the broadcaster channels and only data built from their view parameter; broadcastAll covers all three; diff falls back to a full broadcast unless height and round match; first update broadcast in full; nil-voted-round precommits broadcast on every path with no extra condition (flag-sensitive all-paths); the updates-only predicate does not use the cardinality of a cross-target signer union (defect D19, fixed); previous views replaced after handling. The three parts of a view are diffed independently (every success return evaluated all three change tests, decided path-sensitively), each change test is computed from that kind's proofs and not from the vote summary, and every caller of the updates-only diff guards it with equal height and round of its two arguments.",
    design_ref="DESIGN.md §4 C17",
    note="Completeness for arbitrary update sequences beyond the predicate shape is not decided.",
    technique="who-may-send with payload provenance, guard edge-dominance, all-paths post-dominance from a branch edge",
  ),
  "C19": dict(
    category="other",
-   text="For any user-supplied apply/delete functions: append only on the nil-error edge of addTx for that tx against the state selected by isUpdated; returned state threaded into curState; Rebase installs the base, deletes applied, re-applies each remaining tx once in order in a range loop that does not mutate the list, deletes exactly the invalidated ones afterwards and returns them; the four state fields have two writers; the working state is confined to the kernel goroutine with unbuffered request and capacity-1 response channels.",
+   text="For any user-supplied apply/delete functions: append only on the nil-error edge of addTx for that tx against the state selected by isUpdated; returned state threaded into curState; Rebase installs the base, deletes applied, re-applies each remaining tx once in order in a range loop that does not mutate the list, deletes exactly the invalidated ones afterwards and returns them; the four state fields have two writers; the working state is confined to the kernel goroutine with unbuffered request and capacity-1 response channels. The slice handed to readers does not alias the pending list.",
    design_ref="DESIGN.md §4 C19",
    note="Semantics of addTx/txDeleter are not decided; the early error return of Rebase leaves the list as is.",
    technique="guard edge-dominance, loop-structure analysis (range loop, no in-loop mutation), who-may-write, confinement and channel-capacity checks",
